@@ -87,6 +87,7 @@ Inductive wr :=
 | WWindow (a : N) (c : option cols)    (* write / delete the aggregated filter of window a *)
 | WWindowsBelow (a : N)                (* range delete of the aggregated filters below window a *)
 | WSnap (s : rfilter)
+| WSnapDel                             (* core.DeleteRunningEventFilter: the snapshot is consumed *)
 | WL1 (h : N).
 
 Definition batch := list wr.
@@ -117,6 +118,8 @@ Definition apply_wr (d : disk) (w : wr) : disk :=
   | WWindowsBelow a => set_windows d (filter (fun e => a <=? fst e) (d_windows d))
   | WSnap s => {| d_height := d_height d; d_fam := d_fam d; d_state := d_state d; d_windows := d_windows d;
                   d_snap := Some s; d_l1 := d_l1 d |}
+  | WSnapDel => {| d_height := d_height d; d_fam := d_fam d; d_state := d_state d; d_windows := d_windows d;
+                  d_snap := None; d_l1 := d_l1 d |}
   | WL1 h => {| d_height := d_height d; d_fam := d_fam d; d_state := d_state d; d_windows := d_windows d;
                 d_snap := d_snap d; d_l1 := Some h |}
   end.
@@ -239,7 +242,11 @@ Definition rf_rebuild_w (d : disk) (latest : N) : list wr :=
   | None => rf_fill_range_w d (rf_new (align fl) fl) fl latest
   end.
 
-(* InitializeRunningEventFilter: what a fresh process computes from the disk *)
+(* InitializeRunningEventFilter: what a fresh process computes from the disk at the FIRST USE of its
+   (lazy) running filter. The persisted snapshot is read and — since the repair of the stale-snapshot
+   findings — CONSUMED: whenever a chain height exists and a snapshot was read successfully it is
+   deleted with a direct write (its own commit) before it is used as-is, filled, or discarded in
+   favour of a rebuild. On an empty chain (no height) the initialiser returns before reading it. *)
 Definition reinit (d : disk) : rfilter :=
   match d_height d with
   | None => rf0
@@ -255,8 +262,8 @@ Definition reinit (d : disk) : rfilter :=
       end
   end.
 
-(* ... and the direct writes that initialisation performs (each one its own commit) *)
-Definition reinit_w (d : disk) : list wr :=
+(* ... the direct window writes of the fill / rebuild (each one its own commit) ... *)
+Definition reinit_fill_w (d : disk) : list wr :=
   match d_height d with
   | None => []
   | Some latest =>
@@ -271,6 +278,18 @@ Definition reinit_w (d : disk) : list wr :=
       end
   end.
 
+(* ... preceded by the delete of the consumed snapshot (core.DeleteRunningEventFilter, a direct write
+   issued right after the snapshot was read, before any window write) *)
+Definition snap_consume_w (d : disk) : list wr :=
+  match d_height d, d_snap d with
+  | Some _, Some _ => [WSnapDel]
+  | _, _ => []
+  end.
+
+(* all direct writes of an initialisation, in order; the fill reads headers and windows only, so it is
+   computed on d (the pruning-aware initialiser even reads through a database snapshot taken first) *)
+Definition reinit_w (d : disk) : list wr := snap_consume_w d ++ reinit_fill_w d.
+
 (* the filter of a process whose initialisation failed: every later use returns the init error *)
 Definition rf_dead : rfilter := {| rf_from := 0; rf_cols := []; rf_next := 0; rf_err := true |}.
 
@@ -284,8 +303,16 @@ Inductive op :=
                                  touch (it deletes the Deprecated* history buckets only) *)
 | SetL1 (h : N)
 | Snapshot                    (* WriteRunningEventFilter *)
-| Restart (graceful : bool).  (* graceful: snapshot first; both: memory := reinit disk, plus the direct
-                                 writes of the initialisation *)
+| Restart (graceful : bool).  (* process exit, process start and the FIRST USE of the new process's lazy
+                                 running filter (ensureInit: first Store / RevertHead / event query /
+                                 snapshot). graceful: snapshot first (node shutdown); both: the direct
+                                 writes of the initialisation (snapshot delete, then window writes), memory
+                                 := reinit disk. Between process start and first use only Prune / SetL1
+                                 can run; they neither read nor write the filter or the snapshot, so the
+                                 history "crash, start, Prune, first use" is [Prune; Restart false] and
+                                 "shutdown snapshot, start, Prune, first use" is [Snapshot; Prune; Restart true]
+                                 (the second snapshot write re-writes the same value). The harness family
+                                 lazy.go runs the real code WITHOUT forcing the first use. *)
 
 (* verifyBlockSuccession *)
 Definition succession_ok (d : disk) (b : block) : bool :=
@@ -306,7 +333,10 @@ Definition revert_batch (hb : block) (ws : list wr) : batch :=
   ++ [WHeight (if b_num hb =? 0 then None else Some (b_num hb - 1))] ++ ws.
 
 (* pruneHashKeyedUpto: the per-block batches for blocks [n, n+cnt); stops at a missing state update
-   (the call returns the error, earlier rotated batches stay committed). Result: batches, completed? *)
+   (the call returns the error, earlier rotated batches stay committed). Result: batches, completed?
+   Since /repo 0e9468e the hash->number mapping of a block is deleted ONE ITERATION LATE, in the batch of
+   its successor ([carry]: initially the carve-out left at start-1 by the previous call); wherever the loop
+   stops, the mapping of the last pruned block survives (the pending carry is dropped). *)
 Fixpoint prune_blocks (d : disk) (kh : bool) (e n : N) (cnt : nat) (carry : list wr) : list batch * bool :=
   match cnt with
   | O => ([], true)
@@ -314,9 +344,8 @@ Fixpoint prune_blocks (d : disk) (kh : bool) (e n : N) (cnt : nat) (carry : list
       match find_num n (d_fam d FSU) with
       | None => ([], false)
       | Some sb =>
-          let ws := carry ++ (if n + 1 =? e then [] else [WDel FHashNum n (b_id sb)])
-                    ++ [WDel FTxIdx n (b_id sb)] ++ (if kh then [] else [WDel FHist n (b_id sb)]) in
-          let (r, ok) := prune_blocks d kh e (n + 1) c [] in
+          let ws := carry ++ [WDel FTxIdx n (b_id sb)] ++ (if kh then [] else [WDel FHist n (b_id sb)]) in
+          let (r, ok) := prune_blocks d kh e (n + 1) c [WDel FHashNum n (b_id sb)] in
           (ws :: r, ok)
       end
   end.
@@ -426,6 +455,31 @@ Fixpoint exec_fault (ops : list op) (k : nat) (st : disk * rfilter) : disk * rfi
       else run r (fault_op o k (fst st) (snd st))
   end.
 
+(* ---------- the code BEFORE the repair (kept for the witness C05_crash_index_refuted_before_fix) ----------
+   InitializeRunningEventFilter did not delete the snapshot it read: a Restart committed the optional
+   snapshot and the window writes only. *)
+Definition plan_before_fix (o : op) (d : disk) (m : rfilter) : list batch * rfilter :=
+  match o with
+  | Restart g =>
+      let bs0 := if g && negb (rf_err m) then [[WSnap m]] else [] in
+      let d1 := apply_batches d bs0 in
+      (bs0 ++ map (fun w => [w]) (reinit_fill_w d1), reinit d1)
+  | _ => plan o d m
+  end.
+
+Definition step_before_fix (st : disk * rfilter) (o : op) : disk * rfilter :=
+  let (bs, m') := plan_before_fix o (fst st) (snd st) in
+  (apply_batches (fst st) bs, m').
+
+Fixpoint crash_disk_before_fix (ops : list op) (k : nat) (st : disk * rfilter) : disk :=
+  match ops with
+  | [] => fst st
+  | o :: r =>
+      let bs := fst (plan_before_fix o (fst st) (snd st)) in
+      if Nat.leb (length bs) k then crash_disk_before_fix r (k - length bs) (step_before_fix st o)
+      else apply_batches (fst st) (firstn k bs)
+  end.
+
 (* ---------- the property predicates (evaluated by the harness on decoded images) ---------- *)
 Definition in_fam (b : block) (l : list block) : bool := existsb (block_eqb b) l.
 
@@ -519,8 +573,10 @@ Fixpoint ops_env (ops : list op) (st : disk * rfilter) : bool :=
   | o :: r => op_env (fst st) o && ops_env r (step st o)
   end.
 
-(* no Revert removes a block that the persisted running-filter snapshot already covers (the snapshot
-   is never invalidated by juno: registered finding crash:stale-filter-snapshot) *)
+(* no Revert removes a block that a persisted running-filter snapshot covers. Since the repair the
+   snapshot is consumed by the first use of the filter after a restart, so this can only fail for a
+   snapshot written by the RUNNING process (Blockchain.WriteRunningEventFilter called before the end of
+   its life) — see snap_discipline below, which implies it *)
 Definition op_fresh (d : disk) (o : op) : bool :=
   match o with
   | Revert => match d_height d, d_snap d with
@@ -535,6 +591,22 @@ Fixpoint ops_fresh (ops : list op) (st : disk * rfilter) : bool :=
   | [] => true
   | o :: r => op_fresh (fst st) o && ops_fresh r (step st o)
   end.
+
+(* The snapshot discipline of juno's node: WriteRunningEventFilter is called at shutdown only (node.Run:
+   after every service has stopped), i.e. no block is reverted between a snapshot and the next restart.
+   Purely syntactic: [pending] = a snapshot written by the running process may be on disk. *)
+Fixpoint snap_discipline (ops : list op) (pending : bool) : bool :=
+  match ops with
+  | [] => true
+  | Snapshot :: r => snap_discipline r true
+  | Restart _ :: r => snap_discipline r false
+  | Revert :: r => negb pending && snap_discipline r pending
+  | _ :: r => snap_discipline r pending
+  end.
+
+(* a snapshot that describes blocks (next > 0) is on disk and not yet consumed *)
+Definition snap_pending (d : disk) : bool :=
+  match d_snap d with Some s => negb (rf_next s =? 0) | None => false end.
 
 Definition is_restart (o : op) : bool := match o with Restart _ => true | _ => false end.
 
@@ -568,6 +640,7 @@ Definition covers (d : disk) (rf : rfilter) : bool :=
 
 (* a fresh process: its initialisation may first re-write windows *)
 Definition index_covers (d : disk) : bool := covers (apply_batch d (reinit_w d)) (reinit d).
+Definition index_covers_before_fix (d : disk) : bool := covers (apply_batch d (reinit_fill_w d)) (reinit d).
 
 (* memory vs disk *)
 Definition rf_equiv (a b : rfilter) : bool :=
